@@ -29,10 +29,10 @@ vars == <<job>>
 
 NB == Len(Catalogue)
 
-Jobs == {<<"valid", b, e>> : b \in 1..NB, e \in 1..8} \cup {<<"bad", b, 0>> : b \in 1..NB}
+Jobs == {<<"valid", b, e>> : b \in 1..NB, e \in 1..12} \cup {<<"bad", b, 0>> : b \in 1..NB}
         \cup {<<"sh", 0, e>> : e \in 1..Len(ShCatalogue)} \cup {<<"shbad", 0, 0>>}
         \cup {<<"getopts", 0, e>> : e \in 1..5}
-        \cup {<<"pvalid", b, e>> : b \in 1..NB, e \in 1..8}
+        \cup {<<"pvalid", b, e>> : b \in 1..NB, e \in 1..12}
 
 RECURSIVE Join(_)
 Join(cs) == IF cs = <<>> THEN "" ELSE cs[1] \o Join(Tail(cs))
